@@ -43,6 +43,8 @@ func ChildFSMain(args []string) {
 	if len(args) != 2 {
 		os.Exit(3)
 	}
+	// the locked main goroutine runs on the thread group leader: its thread id is the process id
+	fmt.Printf("pid %d %d\n", os.Getpid(), syscall.Gettid())
 	stor, _ := json.Marshal(map[string]any{"module": "file_system", "root": args[0]})
 	cfg := &caddy.Config{
 		Admin: &caddy.AdminConfig{Disabled: true},
@@ -155,13 +157,20 @@ func fsKeyOfPath(storeRoot, p string) (short string, inDir bool) {
 }
 
 // parseFSTrace: the main thread's file operations inside the CA's directory, numbered per system call.
-func parseFSTrace(text, storeRoot string) []fsOp {
+func parseFSTrace(text, storeRoot, mainPid string) []fsOp {
 	lines := strings.Split(text, "\n")
-	mainPid := ""
-	for _, ln := range lines {
-		if m := reLine.FindStringSubmatch(ln); m != nil {
-			mainPid = m[1]
-			break
+	if mainPid == "" {
+		// the child did not get as far as saying so: the thread group leader has the smallest id
+		best := -1
+		for _, ln := range lines {
+			if m := reLine.FindStringSubmatch(ln); m != nil {
+				if n, err := strconv.Atoi(m[1]); err == nil && (best < 0 || n < best) {
+					best = n
+				}
+			}
+		}
+		if best >= 0 {
+			mainPid = strconv.Itoa(best)
 		}
 	}
 	counts := map[string]int{}
@@ -368,7 +377,17 @@ func runFSChild(work, storeRoot, life string, inject []string) fsChildResult {
 	if strings.Contains(string(tb), "+++ killed by SIGKILL +++") {
 		res.killed = true
 	}
-	res.ops = parseFSTrace(string(tb), storeRoot)
+	// first line of the child's output: "pid <pid> <tid of the thread doing the work>"
+	mainPid := ""
+	if f := strings.Fields(res.out); len(f) >= 3 && f[0] == "pid" {
+		mainPid = f[2]
+		if i := strings.Index(res.out, "\n"); i >= 0 {
+			res.out = strings.TrimSpace(res.out[i+1:])
+		} else {
+			res.out = ""
+		}
+	}
+	res.ops = parseFSTrace(string(tb), storeRoot, mainPid)
 	return res
 }
 
@@ -501,6 +520,12 @@ func runFSOnce(line, hist string, evs []fsEvent) (o core.Outcome, misplaced bool
 		res := runFSChild(work, storeRoot, ev.life, inject)
 		if res.exitErr != "" && !res.killed {
 			fail("harness-child-failed", fmt.Sprintf("child of %q: %s", hist, res.exitErr))
+		}
+		if len(res.ops) == 0 && !res.killed {
+			// every start-up reads root.crt at least: the trace was not attributed; repeat the case
+			fail("harness-fault-misplaced", fmt.Sprintf("event %d of %q: no file operation was observed", i+1, hist))
+			o.Impl = "fault-misplaced"
+			return o, true
 		}
 		// did the fault land where it was aimed?
 		if wantSys != "" {
